@@ -32,6 +32,7 @@ MIN_REACH = {
     "rows_decoded": {"quick": 1200, "thorough": 20000},
     "crop_runs": {"quick": 60, "thorough": 1000},
     "new_samplers": {"quick": 60, "thorough": 1000},
+    "older_sampler_reused": {"quick": 15, "thorough": 250},
     "generator_draws_matched": {"quick": 300, "thorough": 5000},
 }
 TIME_BUDGET = {"quick": 400, "thorough": 3400}
@@ -43,6 +44,7 @@ def cases(ctx):
         runs = []
         for k in range(rng.randint(1, 6)):
             r = {"how": rng.choice(["sample", "sample", "crop"]), "n": rng.randint(1, 12), "new_sampler": rng.random() < 0.4,
+                 "reuse_old": rng.random() < 0.35,
                  "override": rng.choice([None, None, "lists", "gens", "mixed"]), "shuffle": rng.choice([False, False, True, 5]),
                  "batchsize": rng.choice([None, 1, 2, 3, 5]), "reload_crop": rng.random() < 0.5, "rseed": rng.randint(0, 10 ** 9)}
             runs.append(r)
@@ -91,6 +93,7 @@ def run_case(ctx, case):
 
     draws = {}
     s = None
+    alive = []
     prev_rows = []
     hist = []
     cols = args + sorted(constants) + outs
@@ -106,6 +109,15 @@ def run_case(ctx, case):
             if s is not None:
                 ctx.count("new_samplers")
             s = new_sampler(rng)
+            alive.append(s)
+        elif run.get("reuse_old") and len(alive) > 1 and not case["mem_only"]:
+            # an OLDER sampler object (another session that is still open) runs again after newer ones appended
+            s = alive[rng.randrange(len(alive) - 1)]
+            ctx.count("older_sampler_reused")
+            for a, v in s.default_combos.items():
+                if isinstance(v, LoggingGen):
+                    v.rng = rng
+                    v.log = draws.setdefault(a, [])
         else:
             # re-point logging generators of the live sampler at this run's rng
             for a, v in s.default_combos.items():
